@@ -137,48 +137,54 @@ inductive Packet
 
 def bit (x k : Nat) : Bool := x / 2 ^ k % 2 = 1
 
+/-- the `if c.WillFlag { … }` block of `unpackPayload` -/
+def unpackWillPart (c : Connect) (w1 : Bytes) : Except Err (Connect × Bytes) :=
+  if c.willFlag then
+    let wp : Except Err (Option Props × Bytes) :=
+      if c.version = v5 then
+        match unpackProps none w1 with
+        | .error e => .error e
+        | .ok (ps, r) => .ok (some ps, r)
+      else .ok (c.wprops, w1)
+    match wp with
+    | .error e => .error e
+    | .ok (wps, w2) =>
+      match readStr true w2 with
+      | .error e => .error e
+      | .ok (wt, w3) =>
+        match readBin w3 with
+        | .error e => .error e
+        | .ok (wm, w4) => .ok ({ c with wprops := wps, willTopic := some wt, willMsg := some wm }, w4)
+  else .ok (c, w1)
+
+/-- the `if c.UsernameFlag { … }` block -/
+def unpackUserPart (c : Connect) (w : Bytes) : Except Err (Connect × Bytes) :=
+  if c.usernameFlag then
+    match readStr true w with
+    | .error e => .error e
+    | .ok (u, r) => .ok ({ c with username := some u }, r)
+  else .ok (c, w)
+
+/-- the `if c.PasswordFlag { … }` block (F25 fixed: binary data); bytes behind it are ignored -/
+def unpackPassPart (c : Connect) (w : Bytes) : Except Err Connect :=
+  if c.passwordFlag then
+    match readBin w with
+    | .error e => .error e
+    | .ok (p, _) => .ok { c with password := some p }
+  else .ok c
+
 /-- `c.unpackPayload(bufr)` -/
 def unpackConnectPayload (c : Connect) (w : Bytes) : Except Err Connect :=
   match readStr true w with
   | .error e => .error e
   | .ok (cid, w1) =>
     if (c.version = v311 || c.version = v31) && cid.isEmpty && !c.cleanStart then .error (.code 0x02) else
-    let c := { c with clientID := cid }
-    let willPart : Except Err (Connect × Bytes) :=
-      if c.willFlag then
-        let wp : Except Err (Option Props × Bytes) :=
-          if c.version = v5 then
-            match unpackProps none w1 with
-            | .error e => .error e
-            | .ok (ps, r) => .ok (some ps, r)
-          else .ok (c.wprops, w1)
-        match wp with
-        | .error e => .error e
-        | .ok (wps, w2) =>
-          match readStr true w2 with
-          | .error e => .error e
-          | .ok (wt, w3) =>
-            match readBin w3 with
-            | .error e => .error e
-            | .ok (wm, w4) => .ok ({ c with wprops := wps, willTopic := some wt, willMsg := some wm }, w4)
-      else .ok (c, w1)
-    match willPart with
+    match unpackWillPart { c with clientID := cid } w1 with
     | .error e => .error e
     | .ok (c, w5) =>
-      let userPart : Except Err (Connect × Bytes) :=
-        if c.usernameFlag then
-          match readStr true w5 with
-          | .error e => .error e
-          | .ok (u, r) => .ok ({ c with username := some u }, r)
-        else .ok (c, w5)
-      match userPart with
+      match unpackUserPart c w5 with
       | .error e => .error e
-      | .ok (c, w6) =>
-        if c.passwordFlag then
-          match readBin w6 with
-          | .error e => .error e
-          | .ok (p, _) => .ok { c with password := some p }
-        else .ok c
+      | .ok (c, w6) => unpackPassPart c w6
 
 /-- `Connect.Unpack` on the window -/
 def unpackConnect (w : Bytes) : Except Err Connect :=
@@ -280,6 +286,12 @@ def unpackPubrel (remLen : Nat) (w : Bytes) : Except Err Ack :=
         | .error e => .error e
         | .ok (ps, _) => .ok { version := 0, pid := pid, code := code, props := some ps }
 
+/-- the `Topic` one round of the loop in `Subscribe.Unpack` builds from the filter and the options byte -/
+def topicOf (version : Nat) (tf : Bytes) (opts : Nat) : Topic :=
+  if version = v5 then
+    { name := tf, qos := opts % 4, noLocal := bit opts 2, rap := bit opts 3, retainHandling := opts / 16 % 4 }
+  else { name := tf, qos := opts, noLocal := false, rap := false, retainHandling := 0 }
+
 /-- topic loop of `Subscribe.Unpack`; one round consumes ≥ 3 bytes -/
 def subscribeLoop (version : Nat) : Nat → Bytes → List Topic → Except Err (List Topic)
   | 0, _, _ => .error .other
@@ -291,15 +303,11 @@ def subscribeLoop (version : Nat) : Nat → Bytes → List Topic → Except Err 
       match w1 with
       | [] => .error .malformed
       | opts :: w2 =>
-        let tp : Topic :=
-          if version = v5 then
-            { name := tf, qos := opts % 4, noLocal := bit opts 2, rap := bit opts 3, retainHandling := opts / 16 % 4 }
-          else { name := tf, qos := opts, noLocal := false, rap := false, retainHandling := 0 }
         if version != v5 && opts > 2 then .error .protocol
         else if opts / 64 % 4 != 0 then .error .protocol
-        else if tp.qos > 2 then .error .protocol
-        else if w2.isEmpty then .ok (acc ++ [tp])
-        else subscribeLoop version fuel w2 (acc ++ [tp])
+        else if (topicOf version tf opts).qos > 2 then .error .protocol
+        else if w2.isEmpty then .ok (acc ++ [topicOf version tf opts])
+        else subscribeLoop version fuel w2 (acc ++ [topicOf version tf opts])
 
 def unpackSubscribe (version : Nat) (w : Bytes) : Except Err Subscribe :=
   match readU16 w with
@@ -507,34 +515,44 @@ def frame (ptype flags : Nat) (body : Bytes) : Except Err Bytes :=
 
 def b2n (b : Bool) (n : Nat) : Nat := if b then n else 0
 
-def connectBody (c : Connect) : Except Err Bytes :=
-  let flags := b2n c.usernameFlag 128 + b2n c.passwordFlag 64 + b2n c.willRetain 32 + b2n c.willFlag 4
+/-- first byte after the protocol level: the Connect Flags as `Pack` assembles them -/
+def connectFlags (c : Connect) : Nat :=
+  b2n c.usernameFlag 128 + b2n c.passwordFlag 64 + b2n c.willRetain 32 + b2n c.willFlag 4
     + (if c.willQos = 1 then 8 else if c.willQos = 2 then 16 else 0) + b2n c.cleanStart 2
-  let head := writeBin c.protoName ++ [c.level, flags] ++ writeU16 c.keepAlive
+
+def packWillPart (c : Connect) : Except Err Bytes :=
+  if c.willFlag then
+    match encodeUTF8String (c.willTopic.getD []) with
+    | .error e => .error e
+    | .ok wt =>
+      match encodeUTF8String (c.willMsg.getD []) with
+      | .error e => .error e
+      | .ok wm => .ok ((if c.version = v5 then packWillProps c.wprops else []) ++ wt ++ wm)
+  else .ok []
+
+def packUserPart (c : Connect) : Except Err Bytes :=
+  if c.usernameFlag then encodeUTF8String (c.username.getD []) else .ok []
+
+def packPassPart (c : Connect) : Except Err Bytes :=
+  if c.passwordFlag then encodeUTF8String (c.password.getD []) else .ok []
+
+def connectHead (c : Connect) : Bytes :=
+  writeBin c.protoName ++ [c.level, connectFlags c] ++ writeU16 c.keepAlive
     ++ (if c.version = v5 then packProps c.props else [])
+
+def connectBody (c : Connect) : Except Err Bytes :=
   match encodeUTF8String c.clientID with
   | .error e => .error e
   | .ok cid =>
-    let willPart : Except Err Bytes :=
-      if c.willFlag then
-        match encodeUTF8String (c.willTopic.getD []) with
-        | .error e => .error e
-        | .ok wt =>
-          match encodeUTF8String (c.willMsg.getD []) with
-          | .error e => .error e
-          | .ok wm => .ok ((if c.version = v5 then packWillProps c.wprops else []) ++ wt ++ wm)
-      else .ok []
-    match willPart with
+    match packWillPart c with
     | .error e => .error e
     | .ok wp =>
-      let userPart : Except Err Bytes := if c.usernameFlag then encodeUTF8String (c.username.getD []) else .ok []
-      match userPart with
+      match packUserPart c with
       | .error e => .error e
       | .ok up =>
-        let passPart : Except Err Bytes := if c.passwordFlag then encodeUTF8String (c.password.getD []) else .ok []
-        match passPart with
+        match packPassPart c with
         | .error e => .error e
-        | .ok pp => .ok (head ++ cid ++ wp ++ up ++ pp)
+        | .ok pp => .ok (connectHead c ++ cid ++ wp ++ up ++ pp)
 
 def connackBody (c : Connack) : Bytes :=
   [if c.sessionPresent then 1 else 0, c.code] ++ (if c.version = v5 then packProps c.props else [])
